@@ -11,7 +11,7 @@
    mode 2 / 3 / 4 denote {-1,0,1} / {-1,1} / {0,1};
    a po2 reported type denotes {0} \cup {+-2^e : e in the interval of quantizer_impl.get_exp}. *)
 EXTENDS Integers, Sequences, FiniteSets
-Pow2(k) == 2^k
+Pow2(k) == IF k < 0 THEN 0 ELSE 2^k           \* total: a malformed reported type (bits < sign + 1) must yield a verdict, not an evaluation error
 Max(a, b) == IF a >= b THEN a ELSE b
 Min(a, b) == IF a <= b THEN a ELSE b
 Abs(n) == IF n < 0 THEN -n ELSE n
@@ -147,7 +147,7 @@ DesignMux(w, x, outpo2) ==
 DesignXor(w, x) == BinaryT(3)
 DesignAnd(w, x, outpo2) ==
   LET bits == Max(x.bits, w.bits)
-      int == IF w.bin01 THEN x.int ELSE w.int          \* (a quantized_relu(1,1) weight is mode 4 but not "binary")
+      int == IF w.mode = 4 THEN x.int ELSE w.int       \* every 0/1 gate weight (binary(use_01), bernoulli, quantized_relu(1,1))
       sg == Or(x.sg, w.sg)
   IN IF outpo2 THEN LET src == IF w.mode = 1 THEN w ELSE x IN Po2T(bits, int, sg, src.hasmv, src.mvk)
      ELSE FixedT(bits, int, sg)
